@@ -2,6 +2,7 @@
 configuration part: active configuration, sync.RWMutex, fetch / lookup / auction / register)."""
 import json
 import os
+from concurrent.futures import ThreadPoolExecutor
 import vf
 
 PID = "C12"
@@ -32,15 +33,22 @@ def _ops(s):
 
 
 def sig_of(s):
-    if any(st["ev"] == "Stress" for st in s["steps"]):
+    fam = s.get("family", "gated")
+    if fam == "stress":
         return {"family": "stress"}
     reset = s["steps"][0]
-    bad = {d["id"]: set(d.get("bad", [])) for d in reset.get("docs", [])}
     kinds, src = _ops(s)
+    if fam in ("held", "heldfetch", "alt"):
+        # held: call 1 (lookup / auction of v) is held mid-resolution across the whole fetch 2; heldfetch: the fetch 1
+        # is held at the source across the whole call 2; alt: fetch ; lookup ; fetch ; lookup ; fetch ; auction
+        first = kinds.get(2 if fam != "held" else 1, ("?", 0))
+        return {"family": fam, "call": first[0], "v": first[1], "init": reset.get("init", 0),
+                "source": [list(src[o]) for o in sorted(src)]}
+    bad = {d["id"]: set(d.get("bad", [])) for d in reset.get("docs", [])}
     docs_seen = {reset.get("init", 0)} | {d for (o, d) in src.values() if o == "good"}
     unresolvable_auction = any(k == "auction" and any(v in bad.get(d, ()) for d in docs_seen)
                                for (k, v) in kinds.values())
-    return {"family": "gated", "auction_of_unresolvable_validator": unresolvable_auction,
+    return {"family": fam, "auction_of_unresolvable_validator": unresolvable_auction,
             "auctions": sum(1 for (k, _) in kinds.values() if k == "auction")}
 
 
@@ -51,6 +59,19 @@ def nontrivial(s, rows):
     if st:
         return st[0].get("fetches", 0) > 100 and st[0].get("calls", 0) > 100
     reset = s["steps"][0]
+    fam = s.get("family", "gated")
+    rets = [i for i, r in enumerate(rows) if r.get("ev") == "Return"]
+    srcs = [i for i, r in enumerate(rows) if r.get("ev") == "Source"]
+    if fam == "held":
+        # the source answered the fetch while the first call was still in flight, and the validator was
+        # looked up / auctioned for again after both had returned
+        first = next((i for i in rets if rows[i].get("op") == 1), None)
+        later = [i for i in rets if rows[i].get("op") in (3, 4)]
+        return bool(srcs) and first is not None and bool(later) and srcs[0] < first
+    if fam == "heldfetch":
+        # the call was answered while the fetch was waiting for the source
+        second = next((i for i in rets if rows[i].get("op") == 2), None)
+        return bool(srcs) and second is not None and second < srcs[0]
     bad = {d["id"] for d in reset.get("docs", []) if d.get("bad")}
     seen = reset.get("init", 0) in bad
     for r in rows:
@@ -62,44 +83,101 @@ def nontrivial(s, rows):
 
 
 def scenarios(tier):
+    import random
     quick = tier == "quick"
-    sim = vf.tlc_scenarios(PID, "Scen_BlockRelay_C12", "Scen_BlockRelay_C12.cfg",
-                           num=140 if quick else 1500, depth=150, timeout=900)
-    seq = vf.tlc_scenarios(PID, "Scen_BlockRelay_C12", "Scen_BlockRelay_C12_seq.cfg", exhaustive=True,
-                           name="scen-seq", timeout=900)
+    rnd = random.Random(vf.seed())
+
+    def gen(cfg, name, **kw):
+        return vf.tlc_scenarios(PID, "Scen_BlockRelay_C12", cfg, name=name, timeout=900, **kw)
+
+    def sample(hs, n):
+        hs = list(hs)
+        rnd.shuffle(hs)
+        return hs[:n]
+
+    with ThreadPoolExecutor(max_workers=6) as ex:      # the generator runs are independent: side by side
+        futs = {k: ex.submit(gen, *a, **kw) for k, (a, kw) in {
+            "sim": (("Scen_BlockRelay_C12.cfg", "scen"), dict(num=140 if quick else 1500, depth=150)),
+            "seq": (("Scen_BlockRelay_C12_seq.cfg", "scen-seq"), dict(exhaustive=True)),
+            "held": (("Scen_BlockRelay_C12_held.cfg", "scen-held"), dict(exhaustive=True)),
+            "heldfetch": (("Scen_BlockRelay_C12_heldfetch.cfg", "scen-heldfetch"), dict(exhaustive=True)),
+            "alt": (("Scen_BlockRelay_C12_alt.cfg", "scen-alt"), dict(exhaustive=True)),
+            "snap": (("Scen_BlockRelay_C12_snap.cfg", "scen-snap"), dict(num=80 if quick else 600, depth=150)),
+        }.items()}
+        got = {k: f.result() for k, f in futs.items()}
+    sim = got["sim"][: (140 if quick else 1500)]
+    seq = got["seq"]
+    # the directed overlap families (every initial configuration x answer of the source x validator x kind):
+    # a lookup / auction held mid-resolution across a complete fetch, then the validator is looked up and
+    # auctioned for again; and a fetch held at the source across a complete lookup / auction
+    held = got["held"]
+    heldfetch = got["heldfetch"]
+    # sequential histories on one instance: fetch ; lookup ; fetch ; lookup ; fetch ; auction, every sequence of answers
+    alt = got["alt"]
+    # simulated schedules of the design that works the settings out after releasing the lock (calls held across fetches)
+    snap = got["snap"][: (80 if quick else 600)]
     if quick:
         # every pair "fetch ; operation" and a seeded sample of the other pairs
-        import random
-        rnd = random.Random(vf.seed())
         first = [h for h in seq if h[1].get("kind") == "fetch"]
         rest = [h for h in seq if h[1].get("kind") != "fetch"]
-        rnd.shuffle(rest)
-        seq = first + rest[:60]
-    hs = seq + sim[: (140 if quick else 1500)]
-    sc = [{"sc": i + 1, "steps": h} for i, h in enumerate(hs)]
+        seq = first + sample(rest, 60)
+        heldfetch = sample(heldfetch, 64)
+        alt = sample(alt, 100)
+    fams = [("gated", seq), ("held", held), ("heldfetch", heldfetch), ("alt", alt), ("gated", sim), ("gated", snap)]
+    sc = []
+    for fam, hs in fams:
+        for h in hs:
+            sc.append({"sc": len(sc) + 1, "family": fam, "steps": h})
     reset = dict(sim[0][0]) if sim else dict(seq[0][0])
     n = len(sc)
     for k in range(3 if quick else 10):
         r = dict(reset)
         r["init"] = [0, 1, 3, 6][k % 4]
-        sc.append({"sc": n + k + 1, "steps": [r, {"ev": "Stress", "n": 1500 if quick else 6000, "workers": 3 + k % 3}]})
+        sc.append({"sc": n + k + 1, "family": "stress",
+                   "steps": [r, {"ev": "Stress", "n": 1500 if quick else 6000, "workers": 3 + k % 3}]})
     return sc
 
 
 def design_checks(v, tier):
-    v.add_mc(vf.tlc_exhaustive(PID, "BlockRelay", "MC_BlockRelay_C12.cfg"))
+    # the configuration part as written (settings worked out under the lock; safety and NoWedge), and the same
+    # property for a service that reads the configuration under the lock and works the settings out afterwards
+    # (equally permitted; the schedules of the overlap family come from this design)
+    mcs = [("MC_BlockRelay_C12.cfg", 900),
+           ("MC_BlockRelay_C12_snapshot.cfg" if tier == "thorough" else "MC_BlockRelay_C12_snapshot_safety.cfg", 1500)]
     if tier == "thorough":
-        v.add_mc(vf.tlc_exhaustive(PID, "BlockRelay", "MC_BlockRelay_C12_big.cfg", timeout=1500))
-    # the model must keep its discriminating power: auctionBlock as written on the pinned tree
-    # (nested RLock, no RUnlock on the error return) violates LockBalanced and NoWedge
-    r = vf.tlc(PID, "mc-pinned", "BlockRelay", "MC_BlockRelay_C12_pinned.cfg", workers=min(vf.NCPU, 8), timeout=600)
+        mcs.append(("MC_BlockRelay_C12_big.cfg", 1500))
+    # self-checks: the model must keep its discriminating power.
+    #  * auctionBlock as written on the pinned tree (nested RLock, no RUnlock on the error return) violates
+    #    LockBalanced and NoWedge;
+    #  * control model (state carried on the instance): a per-validator memo of worked-out settings that every
+    #    fetch empties is right in every sequential history (must pass with one call at a time) and wrong as soon
+    #    as a lookup overlaps a fetch (must violate AnswersInForce); a memo that only keeps results of the
+    #    configuration still active is fine (the property does not forbid remembering)
+    selfs = ["pinned", "pinned_live", "memo", "memo_seq", "memochecked"]
+    with ThreadPoolExecutor(max_workers=len(mcs) + len(selfs)) as ex:
+        mc_futs = [ex.submit(vf.tlc_exhaustive, PID, "BlockRelay", c, workers=4, timeout=t) for c, t in mcs]
+        self_futs = {n: ex.submit(vf.tlc, PID, "mc-" + n, "BlockRelay", "MC_BlockRelay_C12_%s.cfg" % n, workers=2, timeout=900)
+                     for n in selfs}
+        rs = {n: f.result() for n, f in self_futs.items()}
+        for f in mc_futs:
+            v.add_mc(f.result())
+    r = rs["pinned"]
     if not (r["kind"] == "invariant" and r["violated"] == "LockBalanced"):
         raise vf.Broken("the pinned rendering of auctionBlock no longer violates LockBalanced in the model (%s %s)"
                         % (r["kind"], r["violated"]))
-    r = vf.tlc(PID, "mc-pinned-live", "BlockRelay", "MC_BlockRelay_C12_pinned_live.cfg", workers=min(vf.NCPU, 8), timeout=600)
+    r = rs["pinned_live"]
     if "Temporal property NoWedge was violated" not in r["out"] and r["kind"] != "temporal":
         raise vf.Broken("the pinned rendering of auctionBlock no longer violates NoWedge in the model")
     vf.log("model self-check: pinned auctionBlock violates LockBalanced and NoWedge (as it must)")
+    r = rs["memo"]
+    if not (r["kind"] == "invariant" and r["violated"] == "AnswersInForce"):
+        raise vf.Broken("the memoising control model no longer violates AnswersInForce (%s %s)" % (r["kind"], r["violated"]))
+    for n in ("memo_seq", "memochecked"):
+        if not rs[n]["ok"]:
+            raise vf.Broken("control model %s no longer satisfies the configuration part (%s %s)\n%s"
+                            % (n, rs[n]["kind"], rs[n]["violated"], rs[n]["out"][-2000:]))
+    vf.log("model self-check: a memo of worked-out settings emptied by every fetch violates AnswersInForce under overlap, "
+           "satisfies everything sequentially; the checked memo satisfies everything (as they must)")
 
 
 def run(tier):
@@ -109,8 +187,10 @@ def run(tier):
         "Env_Responds: the configuration source and the bid strategy answer every call (fairness)",
         "configuration source, accounts, signer, relays, beacon nodes, bid strategy and scheduler are scripted fakes at the service's interfaces",
     ]
-    design_checks(v, tier)
-    sc = scenarios(tier)
+    with ThreadPoolExecutor(max_workers=2) as ex:      # model checking and scenario generation side by side
+        f_sc = ex.submit(scenarios, tier)
+        design_checks(v, tier)
+        sc = f_sc.result()
     vf.conformance(v, sc, driver, TRACE[0], TRACE[1], sig_of, nontrivial, tlc_timeout=1500)
     v.coverage["rule"] = ("behaviours of BlockRelay.tla (configuration part): every sequential pair of operations "
                           "(exhaustive), TLC-simulated concurrent schedules (seeded) replayed with gates inside the "
